@@ -86,6 +86,13 @@ func (c *TermCtx) SetDomain(v *Term, dom *[4]uint64) {
 	c.domain[v] = dom
 }
 
+// ClearDomain forgets the recorded value set of v (used while (re)building the constraint that asserts it).
+func (c *TermCtx) ClearDomain(v *Term) {
+	if c.domain != nil {
+		delete(c.domain, v)
+	}
+}
+
 func domHas(d *[4]uint64, v uint64) bool { return v < 256 && d[v>>6]&(1<<(v&63)) != 0 }
 
 // domCmp decides a comparison "x op const" from the domain of x; returns 1 true, 0 false, -1 unknown.
